@@ -528,6 +528,19 @@ func (c *Ctx) Cmp(op Op, a, b *Term) *Term {
 			return False
 		}
 	}
+	// comparisons of two zero-extensions of equally wide terms narrow to the inner width
+	if a.Op == OZExt && b.Op == OZExt && a.Args[0].W == b.Args[0].W && a.W > a.Args[0].W {
+		switch op {
+		case OEq, OUlt, OUle, OSlt, OSle:
+			inner := op
+			if op == OSlt {
+				inner = OUlt
+			} else if op == OSle {
+				inner = OUle
+			}
+			return c.Cmp(inner, a.Args[0], b.Args[0])
+		}
+	}
 	if op == OEq {
 		if a.W == 0 { // boolean equality
 			if a.Op == OConst {
